@@ -688,7 +688,7 @@ theorem upd_live : ∀ (p : Path) (v n : T) (A : List Nat) (f : Nat) v' A' f' lo
     · rw [ids_node_plug] at hnot
       simp only [List.mem_cons, List.mem_append, not_or] at hnot
       obtain ⟨h0, ⟨h1, h2⟩, h3⟩ := hnot
-      obtain ⟨g1, g2⟩ := ih fo.child n A f u _ f' log1 hu a ha h2
+      obtain ⟨g1, g2⟩ := ih fo.child n A f u _ _ _ hu a ha h2
       refine ⟨g1, ?_⟩
       rcases g2 with g2 | g2
       · left
@@ -705,7 +705,7 @@ theorem upd_live : ∀ (p : Path) (v n : T) (A : List Nat) (f : Nat) v' A' f' lo
           rcases hA2 with ⟨hEq, _⟩ | ⟨id, c, _, _, hEq⟩
           · rw [hEq] at ha2; exact ha2
           · rw [hEq] at ha2; exact (List.mem_filter.mp ha2).1
-        obtain ⟨g1, g2⟩ := ih fo.child n A f u A1 f1 log1 hu a haA1 h2
+        obtain ⟨g1, g2⟩ := ih fo.child n A f u A1 f1 _ hu a haA1 h2
         refine ⟨g1, ?_⟩
         rcases g2 with g2 | g2
         · left
@@ -732,17 +732,17 @@ theorem upd_live : ∀ (p : Path) (v n : T) (A : List Nat) (f : Nat) v' A' f' lo
         · exact Or.inr g2
 
 /-- when `upd` and tree-level `getpath` both succeed on `p`, the replaced subtree is what `getpath` found -/
-theorem subE_eq_getp : ∀ (p : Path) (v x : T), getp p v = some x → (∀ n A f r, upd A f p v n = some r → True) →
+theorem subE_eq_getp : ∀ (p : Path) (v x : T), getp p v = some x →
     ∀ n A f r, upd A f p v n = some r → subE p v = x := by
   intro p
   induction p with
-  | nil => intro v x h _ n A f r _; simp only [getp, Option.some.injEq] at h; simpa [subE] using h
+  | nil => intro v x h n A f r _; simp only [getp, Option.some.injEq] at h; simpa [subE] using h
   | cons e p ih =>
-    intro v x h _ n A f r hu
+    intro v x h n A f r hu
     obtain ⟨v', A', f', log⟩ := r
     obtain ⟨cell, o, fo, u, A1, f1, log1, he, hu', _⟩ := upd_step A f e p v n v' A' f' log hu
     simp only [subE, he]
-    refine ih fo.child x ?_ (fun _ _ _ _ _ => trivial) n A f _ hu'
+    refine ih fo.child x ?_ n A f _ hu'
     -- `enter` and `getp` take the same child
     cases e with
     | key k =>
@@ -794,7 +794,7 @@ theorem subE_eq_getp : ∀ (p : Path) (v x : T), getp p v = some x → (∀ n A 
 
 /-- **Registered cells are live**, for one iteration of `_modify`: if every registered label occurs in
     the value before the iteration, every registered label occurs in the value after it. -/
-theorem modifyStep_live (q : T → Nat → T × Nat) (hq : QOK q) (v : T) (A : List Nat) (f : Nat) (p : Path)
+theorem modifyStep_live (q : T → Nat → T × Nat) (v : T) (A : List Nat) (f : Nat) (p : Path)
     (v' : T) (A' : List Nat) (f' : Nat) (log : Log)
     (h : modifyStep q (v, A, f) p = some (v', A', f', log)) (inv : Inv A f v)
     (hlive : ∀ a ∈ A, a ∈ v.ids) : ∀ a ∈ A', a ∈ v'.ids := by
@@ -807,7 +807,7 @@ theorem modifyStep_live (q : T → Nat → T × Nat) (hq : QOK q) (v : T) (A : L
     apply Classical.byContradiction
     intro hnot
     obtain ⟨g1, g2⟩ := upd_live p v _ _ _ v' A' f' log h a ha hnot
-    have hsubE := subE_eq_getp p v x hx (fun _ _ _ _ _ => trivial) _ _ _ _ h
+    have hsubE := subE_eq_getp p v x hx _ _ _ _ h
     have hxc := getp_count p v x hx
     have hux : ∀ a ∈ A, x.ids.count a ≤ 1 := fun a ha => by have := inv.uniq a ha; have := hxc a; omega
     rcases g2 with g2 | g2
@@ -834,6 +834,6 @@ theorem modifyAll_live (q : T → Nat → T × Nat) (hq : QOK q) :
     · rename_i v' A' f' log hs
       obtain ⟨inv', hcons, _, _⟩ := modifyStep_sound q hq v A f p v' A' f' log hs inv
       rw [applyLog_id log v' hcons] at h
-      exact ih v' A' f' r inv' (modifyStep_live q hq v A f p v' A' f' log hs inv hl) h
+      exact ih v' A' f' r inv' (modifyStep_live q v A f p v' A' f' log hs inv hl) h
 
 end Gojq.Heap
